@@ -208,8 +208,24 @@ class Interp(object):
     def binop(self, op, l, r, node):
         if isinstance(l, Bytes) and isinstance(r, Bytes) and isinstance(op, ast.Add):
             return l + r
+        # a byte string repeated a known number of times
+        if isinstance(op, ast.Mult):
+            for b_, n_ in ((l, r), (r, l)):
+                if isinstance(b_, Bytes) and isinstance(n_, Int) and not n_.coef and n_.plain():
+                    return Bytes(list(b_.items) * max(n_.c0, 0))
         if not (isinstance(l, Int) and isinstance(r, Int)):
             raise Undecided("operator on %s" % unparse(node)[:60])
+        # two known numbers: plain integer arithmetic
+        if not l.coef and l.plain() and not r.coef and r.plain():
+            import operator as _o
+            fn = {ast.Add: _o.add, ast.Sub: _o.sub, ast.Mult: _o.mul, ast.FloorDiv: _o.floordiv, ast.Mod: _o.mod,
+                  ast.LShift: _o.lshift, ast.RShift: _o.rshift, ast.BitAnd: _o.and_, ast.BitOr: _o.or_, ast.BitXor: _o.xor,
+                  ast.Pow: _o.pow}.get(type(op))
+            if fn is not None:
+                try:
+                    return Int(c0=fn(l.c0, r.c0))
+                except (ZeroDivisionError, ValueError, OverflowError):
+                    raise Undecided("arithmetic error in %s" % unparse(node)[:60])
         rc = r.c0 if not r.coef and r.plain() else None
         if isinstance(op, ast.RShift) and rc is not None:
             k = rc
@@ -323,6 +339,20 @@ class Interp(object):
             return self.run(docstring_free(node.body), env)
         raise Undecided("call of %r" % (f,))
 
+    def _known_test(self, t, env):
+        """truth of a comparison between two known numbers, else None"""
+        if not (isinstance(t, ast.Compare) and len(t.ops) == 1):
+            return None
+        try:
+            a, b = self.ev(t.left, env), self.ev(t.comparators[0], env)
+        except Undecided:
+            return None
+        if not (isinstance(a, Int) and isinstance(b, Int) and not a.coef and not b.coef and a.plain() and b.plain()):
+            return None
+        import operator as _o
+        fn = {ast.Eq: _o.eq, ast.NotEq: _o.ne, ast.Lt: _o.lt, ast.LtE: _o.le, ast.Gt: _o.gt, ast.GtE: _o.ge}.get(type(t.ops[0]))
+        return None if fn is None else fn(a.c0, b.c0)
+
     def run(self, stmts, env):
         for st in stmts:
             if isinstance(st, ast.Assign) and len(st.targets) == 1:
@@ -341,6 +371,10 @@ class Interp(object):
                 return self.ev(st.value, env)
             elif isinstance(st, FuncTypes):
                 env[st.name] = Closure(st, env)
+            elif isinstance(st, ast.If) and self._known_test(st.test, env) is not None:
+                # a test on known numbers (``if bits == 8``): the branch taken, then the rest
+                taken = st.body if self._known_test(st.test, env) else st.orelse
+                return self.run(list(taken) + list(stmts[stmts.index(st) + 1:]), env)
             elif isinstance(st, ast.If) and isinstance(st.test, ast.Compare) and len(st.body) == 1 \
                     and isinstance(st.body[0], (ast.Return, ast.Assign)):
                 # if value OP T: return value - M  /  value -= M ... ; handled as a conditional expression
